@@ -261,7 +261,18 @@ def build_form(axis, ent, raw, last, callform):
         c2 = ucr(R, raw, C, last)
         if to_lines(flatten(c1)) != to_lines(flatten(c2)) or c0 is None:
             raise AssertionError("two consecutive constructions from the same angle object give different circuits")
-        return c2
+        # the caller may go on building on a returned circuit (the property itself appends the omitted entangler after a
+        # last_control=False multiplexer): that must not show in a LATER construction with the same arguments
+        n_before = len(c2.data)
+        if c2.num_qubits >= 2:
+            (c1.cx if ent == "CX" else c1.cz)(c1.num_qubits - 1, 0)
+        else:
+            c1.x(0)
+        c3 = ucr(R, raw, C, last)
+        if c3 is c1 or len(c3.data) != n_before or to_lines(flatten(c3)) != to_lines(flatten(c2)):
+            raise AssertionError("a construction with the same arguments returned a circuit that carries the caller's later edits "
+                                 "to an earlier result (shared mutable circuit)")
+        return c3
     return ucr(R, raw, C, last)
 
 
